@@ -10,6 +10,7 @@
 -/
 import ILV.Drv.Common
 import ILV.Model.Incr
+import ILV.Model.IncrFixed
 namespace ILV.Drv.C18
 open ILV ILV.C18
 
@@ -179,7 +180,9 @@ def walk (viaHandler : Bool) : List Step → List String → St → Ghost → Na
   | st :: l, impls, s, g, k, outs, verdict =>
     let r := step codeAutoMat s st
     let s' := r.1
-    let o := if viaHandler && isAck r.2 then "." else outStr r.2
+    -- the convergence side condition of `safeRec`, observed on every visited state: an evaluation that ran
+    -- out of fuel would show up as a model/code disagreement
+    let o := (if viaHandler && isAck r.2 then "." else outStr r.2) ++ (if convState s' then "" else "!fuel")
     let (impl, impls') := match impls with | i :: is => (i, is) | [] => ("", [])
     let g1 := updCauses g s s' st k
     let g2 : Ghost := match st with
@@ -230,6 +233,21 @@ def hist : Handler := fun args impl =>
   | ["h"] => { model := "", spec := "na", nt := false }
   | _ => badReq
 
-def handlers : List (String × Handler) := [("c18.hist", hist)]
+/-- manual tool (never generated by the harness): run the model of the PROPOSED REPAIR
+    (`ILV.C18.Fixed.step`) over a history and report the first query whose snapshot answer differs
+    from the fresh answer. `sed 's/^c18.hist/c18.fixcheck/' work/C18/cases.txt | ilvd`. -/
+def fixcheck : Handler := fun args _ =>
+  match args with
+  | _ :: "|" :: toks =>
+    match optMapM parseStep (splitSteps toks []) with
+    | none => badReq
+    | some steps =>
+      { model := "", nt := false,
+        spec := match Fixed.firstVisible init steps 0 with
+          | none => specOk
+          | some k => specFail "repair_design" s!"query-at-step-{k}" }
+  | _ => badReq
+
+def handlers : List (String × Handler) := [("c18.hist", hist), ("c18.fixcheck", fixcheck)]
 
 end ILV.Drv.C18
